@@ -1067,6 +1067,12 @@ DIRECTED = (
     ['touch:a', 'newkey_id:a', 'setdef_key:a', 'sign:key:a', 'delkey:a:default', 'newkey_id:a', 'setdef_key:a', 'sign:key:a',
      'sign:cert:a', 'reopen', 'sign:key:a'],
     ['touch:a', 'newkey_id:a', 'delkey:a:other', 'newkey_id:a', 'setdef_key:a', 'sign:id:a', 'sign:keyobj:a'],
+    # a signer is handed out (and cached), its key deleted and a key of the SAME name created again, the same request repeated:
+    # the second signer must sign with the new private key (round 9, C15-seed14: cache validated by "the key exists")
+    ['touch:a', 'newkey_id:a', 'setdef_key:a', 'sign:keyloc:a', 'delkey:a:default', 'newkey_id:a', 'setdef_key:a', 'sign:keyloc:a'],
+    ['touch:a', 'newkey_id:a', 'setdef_key:a', 'sign:keyloc:a', 'delid:a', 'touch:a', 'newkey_id:a', 'setdef_key:a', 'sign:keyloc:a'],
+    ['touch:a', 'newkey_id:a', 'setdef_key:a', 'sign:cert:a', 'sign:certname:a', 'delkey:a:default', 'newkey_id:a', 'setdef_key:a',
+     'sign:cert:a', 'sign:certname:a', 'sign:keyloc:a'],
     ['touch:a', 'newkey_dup:a', 'sign:key:a', 'reopen', 'sign:key:a', 'sign:id:a'],
     ['touch:a', 'newkey:a', 'newkey_dup:a', 'reopen', 'sign:key:a', 'delkey:a:default', 'sign:id:a'],
     ['touch:a', 'touch:b', 'setdef_stale:a:id', 'sign:default', 'reopen', 'sign:default'],
